@@ -1,0 +1,285 @@
+//! Verification hooks. Compiled only with the `verif` cargo feature, which is off by default.
+//!
+//! Nothing in here changes what the interpreter computes. The hooks export
+//! internal state (counters, executed statement ids, process-runner events),
+//! tell AddressSanitizer about arena lifetimes (`verif-asan`), and let a test
+//! harness inject delays and commit failures.
+
+use std::cell::{Cell, RefCell};
+use std::sync::Mutex;
+use std::sync::atomic::{AtomicBool, AtomicU64, Ordering};
+use std::time::Duration;
+
+/// Event counters bumped by the hooks.
+#[derive(Debug, Clone, Copy, PartialEq, Eq)]
+#[repr(usize)]
+pub enum Counter {
+    FrameResetLoop,
+    FrameResetCall,
+    RelocateString,
+    RelocateArray,
+    PromoteCopy,
+    PoolReturn,
+    PoolAllocVirgin,
+    PoolAllocReuse,
+    PoolFallback,
+    StmtExecuted,
+    StmtSkipped,
+    FunctionPruned,
+    ArenaReset,
+    ArenaCommit,
+    ArenaDecommit,
+    ArenaGrowInPlace,
+    ArenaGrowCopy,
+    ArenaAllocFail,
+}
+
+pub const COUNTER_NAMES: [&str; COUNTER_COUNT] = [
+    "frame_reset_loop",
+    "frame_reset_call",
+    "relocate_string",
+    "relocate_array",
+    "promote_copy",
+    "pool_return",
+    "pool_alloc_virgin",
+    "pool_alloc_reuse",
+    "pool_fallback",
+    "stmt_executed",
+    "stmt_skipped",
+    "function_pruned",
+    "arena_reset",
+    "arena_commit",
+    "arena_decommit",
+    "arena_grow_in_place",
+    "arena_grow_copy",
+    "arena_alloc_fail",
+];
+
+pub const COUNTER_COUNT: usize = 18;
+
+thread_local! {
+    static COUNTERS: [Cell<u64>; COUNTER_COUNT] = const { [const { Cell::new(0) }; COUNTER_COUNT] };
+    static STMT_TRACE: RefCell<Option<StmtTrace>> = const { RefCell::new(None) };
+    static COMMIT_FAIL_AFTER: Cell<u64> = const { Cell::new(u64::MAX) };
+}
+
+#[inline]
+pub fn bump(counter: Counter) {
+    COUNTERS.with(|c| {
+        let cell = &c[counter as usize];
+        cell.set(cell.get().wrapping_add(1));
+    });
+}
+
+/// Returns the counters of the calling thread.
+#[must_use]
+pub fn counters() -> [u64; COUNTER_COUNT] {
+    COUNTERS.with(|c| std::array::from_fn(|i| c[i].get()))
+}
+
+pub fn reset_counters() {
+    COUNTERS.with(|c| {
+        for cell in c {
+            cell.set(0);
+        }
+    });
+}
+
+/// Statement ids seen by the executor while a trace is active.
+#[derive(Debug, Default, Clone)]
+pub struct StmtTrace {
+    pub executed: Vec<u32>,
+    pub skipped: Vec<u32>,
+    pub pruned_functions: Vec<u32>,
+}
+
+pub fn stmt_trace_start() {
+    STMT_TRACE.with(|t| *t.borrow_mut() = Some(StmtTrace::default()));
+}
+
+#[must_use]
+pub fn stmt_trace_take() -> StmtTrace {
+    STMT_TRACE.with(|t| t.borrow_mut().take().unwrap_or_default())
+}
+
+#[inline]
+pub fn stmt_executed(id: Option<u32>) {
+    bump(Counter::StmtExecuted);
+    if let Some(id) = id {
+        STMT_TRACE.with(|t| {
+            if let Some(trace) = t.borrow_mut().as_mut() {
+                trace.executed.push(id);
+            }
+        });
+    }
+}
+
+#[inline]
+pub fn stmt_skipped(id: Option<u32>) {
+    bump(Counter::StmtSkipped);
+    if let Some(id) = id {
+        STMT_TRACE.with(|t| {
+            if let Some(trace) = t.borrow_mut().as_mut() {
+                trace.skipped.push(id);
+            }
+        });
+    }
+}
+
+#[inline]
+pub fn function_pruned(id: u32) {
+    bump(Counter::FunctionPruned);
+    STMT_TRACE.with(|t| {
+        if let Some(trace) = t.borrow_mut().as_mut() {
+            trace.pruned_functions.push(id);
+        }
+    });
+}
+
+// ---------------------------------------------------------------------------
+// Arena lifetime tracking
+// ---------------------------------------------------------------------------
+
+static QUARANTINE: AtomicBool = AtomicBool::new(false);
+
+/// With quarantine on, memory taken back by `Arena::reset` or `Pool::dealloc`
+/// is poisoned and not handed out again (arena watermark is not lowered, the
+/// pool prefers never-used slots). Only meaningful together with `verif-asan`.
+pub fn set_quarantine(on: bool) {
+    QUARANTINE.store(on, Ordering::SeqCst);
+}
+
+#[inline]
+#[must_use]
+pub fn quarantine() -> bool {
+    QUARANTINE.load(Ordering::Relaxed)
+}
+
+#[cfg(feature = "verif-asan")]
+unsafe extern "C" {
+    fn __asan_poison_memory_region(addr: *const std::ffi::c_void, size: usize);
+    fn __asan_unpoison_memory_region(addr: *const std::ffi::c_void, size: usize);
+}
+
+/// Marks `[ptr, ptr+len)` as not addressable for AddressSanitizer.
+#[inline]
+pub fn poison(ptr: *const u8, len: usize) {
+    #[cfg(feature = "verif-asan")]
+    if len > 0 {
+        unsafe { __asan_poison_memory_region(ptr.cast(), len) };
+    }
+    #[cfg(not(feature = "verif-asan"))]
+    let _ = (ptr, len);
+}
+
+/// Marks `[ptr, ptr+len)` as addressable for AddressSanitizer.
+#[inline]
+pub fn unpoison(ptr: *const u8, len: usize) {
+    #[cfg(feature = "verif-asan")]
+    if len > 0 {
+        unsafe { __asan_unpoison_memory_region(ptr.cast(), len) };
+    }
+    #[cfg(not(feature = "verif-asan"))]
+    let _ = (ptr, len);
+}
+
+/// Makes the n-th next commit of the calling thread fail (0 = the next one).
+pub fn fail_commit_after(n: u64) {
+    COMMIT_FAIL_AFTER.with(|c| c.set(n));
+}
+
+pub fn clear_commit_failure() {
+    COMMIT_FAIL_AFTER.with(|c| c.set(u64::MAX));
+}
+
+#[inline]
+#[must_use]
+pub fn commit_should_fail() -> bool {
+    COMMIT_FAIL_AFTER.with(|c| {
+        let n = c.get();
+        if n == u64::MAX {
+            return false;
+        }
+        if n == 0 {
+            c.set(u64::MAX);
+            return true;
+        }
+        c.set(n - 1);
+        false
+    })
+}
+
+// ---------------------------------------------------------------------------
+// Process runner: event log and delay points (several threads)
+// ---------------------------------------------------------------------------
+
+/// One process-runner event. `seq` is assigned under the same lock that
+/// appends the event, so the log order is the order of the sequence numbers.
+#[derive(Debug, Clone, PartialEq, Eq)]
+pub struct ProcEvent {
+    pub seq: u64,
+    pub kind: &'static str,
+    pub stream: u8,
+    pub value: u64,
+}
+
+struct ProcLog {
+    enabled: bool,
+    next_seq: u64,
+    events: Vec<ProcEvent>,
+    delays: Vec<(&'static str, u64)>,
+}
+
+static PROC_LOG: Mutex<ProcLog> =
+    Mutex::new(ProcLog { enabled: false, next_seq: 0, events: Vec::new(), delays: Vec::new() });
+
+static PROC_ACTIVE: AtomicU64 = AtomicU64::new(0);
+
+/// Starts recording process-runner events and installs the delay table
+/// (`point name`, milliseconds).
+pub fn proc_log_start(delays: &[(&'static str, u64)]) {
+    let mut log = PROC_LOG.lock().unwrap_or_else(std::sync::PoisonError::into_inner);
+    log.enabled = true;
+    log.next_seq = 0;
+    log.events.clear();
+    log.delays = delays.to_vec();
+    PROC_ACTIVE.store(1, Ordering::SeqCst);
+}
+
+/// Stops recording and returns the events in order.
+#[must_use]
+pub fn proc_log_take() -> Vec<ProcEvent> {
+    let mut log = PROC_LOG.lock().unwrap_or_else(std::sync::PoisonError::into_inner);
+    log.enabled = false;
+    log.delays.clear();
+    PROC_ACTIVE.store(0, Ordering::SeqCst);
+    std::mem::take(&mut log.events)
+}
+
+#[inline]
+pub fn proc_event(kind: &'static str, stream: u8, value: u64) {
+    if PROC_ACTIVE.load(Ordering::Relaxed) == 0 {
+        return;
+    }
+    let mut log = PROC_LOG.lock().unwrap_or_else(std::sync::PoisonError::into_inner);
+    if log.enabled {
+        let seq = log.next_seq;
+        log.next_seq += 1;
+        log.events.push(ProcEvent { seq, kind, stream, value });
+    }
+}
+
+/// Sleeps if the harness configured a delay for this point.
+#[inline]
+pub fn proc_delay(point: &'static str) {
+    if PROC_ACTIVE.load(Ordering::Relaxed) == 0 {
+        return;
+    }
+    let ms = {
+        let log = PROC_LOG.lock().unwrap_or_else(std::sync::PoisonError::into_inner);
+        log.delays.iter().find(|(name, _)| *name == point).map_or(0, |(_, ms)| *ms)
+    };
+    if ms > 0 {
+        std::thread::sleep(Duration::from_millis(ms));
+    }
+}
